@@ -69,6 +69,9 @@ type fnInfo struct {
 	recv   string
 	writes []write
 	calls  []call
+	// check-then-act: reads of pool state (mp.cache.Load/Range, mp.pool[..], exist/existEx/getMemPoolList/
+	// acquireMemPoolList calls) that textually precede the function's own first mp.Lock()/RLock()
+	preReads []string
 }
 
 var mpFields = map[string]bool{"pool": true, "length": true, "orphan": true, "cache": true}
@@ -218,8 +221,37 @@ func analyse(fset *token.FileSet, fd *ast.FuncDecl) *fnInfo {
 			}
 		}
 	}
+	firstLock := token.NoPos
+	for _, ev := range events {
+		if ev.recv == recvName && (ev.kind == "Lock" || ev.kind == "RLock") && (firstLock == token.NoPos || ev.pos < firstLock) {
+			firstLock = ev.pos
+		}
+	}
+	preRead := func(what string, p token.Pos) {
+		if fi.recv == "MemPool" && firstLock != token.NoPos && p < firstLock {
+			fi.preReads = append(fi.preReads, fmt.Sprintf("%s@%d", what, fset.Position(p).Line))
+		}
+	}
 	var deferDepth []token.Pos
 	ast.Inspect(fd.Body, func(n ast.Node) bool {
+		if ix, ok := n.(*ast.IndexExpr); ok {
+			if x, f, ok2 := sel(ix.X); ok2 && f == "pool" && (x == recvName || x == "mp") {
+				preRead("mp.pool[]", ix.Pos())
+			}
+		}
+		if ce, ok := n.(*ast.CallExpr); ok {
+			if se, ok2 := ce.Fun.(*ast.SelectorExpr); ok2 {
+				if x, f, ok3 := sel(se.X); ok3 && f == "cache" && (x == recvName || x == "mp") && (se.Sel.Name == "Load" || se.Sel.Name == "Range") {
+					preRead("mp.cache."+se.Sel.Name, ce.Pos())
+				}
+				if id, ok3 := se.X.(*ast.Ident); ok3 && (id.Name == recvName || id.Name == "mp") {
+					switch se.Sel.Name {
+					case "exist", "existEx", "getMemPoolList", "acquireMemPoolList":
+						preRead("mp."+se.Sel.Name, ce.Pos())
+					}
+				}
+			}
+		}
 		switch s := n.(type) {
 		case *ast.AssignStmt:
 			for _, l := range s.Lhs {
@@ -370,6 +402,21 @@ func main() {
 	b.WriteString("(* (function, field written, weakest lock context of the write) *)\n")
 	b.WriteString("Definition pool_writes : list (string * string * lockst) := [\n")
 	b.WriteString(strings.Join(rows, ";\n"))
+	b.WriteString("\n].\n\n")
+	b.WriteString("(* (function that writes pool fields and takes the lock itself, read of pool state before that Lock) *)\n")
+	b.WriteString("Definition reads_before_lock : list (string * string) := [\n")
+	var pr []string
+	for _, n := range names {
+		fi := fns[n]
+		if len(fi.writes) == 0 {
+			continue
+		}
+		for _, r := range fi.preReads {
+			pr = append(pr, fmt.Sprintf("  (%q, %q)", n, r))
+			fmt.Printf("%-24s reads %s before its own lock\n", n, r)
+		}
+	}
+	b.WriteString(strings.Join(pr, ";\n"))
 	b.WriteString("\n].\n\n")
 	b.WriteString("Definition functions : list string := [\n")
 	for i, n := range names {
